@@ -13,6 +13,8 @@
 #include <errno.h>
 #include <pthread.h>
 #include <semaphore.h>
+#include <unistd.h>
+#include "qinternal.h"
 
 #define MAXT 8
 #define MAXOPS 64
@@ -284,8 +286,70 @@ static int run_stress(int threads, int opsper, int rounds, unsigned seed, const 
     return 0;
 }
 
+/* ------------------------------------------------------------------ the lock protocol itself (Mutex.tla conformance)
+ * Two threads on one thread-safe list.  Thread 2 takes the lock (nested twice in some rounds) and keeps it while thread 1
+ * enters an operation: thread 1's trylock fails MAX_MUTEX_LOCK_WAIT+1 times, the library "force-unlocks", and this repeats
+ * `cycles` times before thread 2 releases and thread 1 gets in.  Every trylock attempt / acquisition / release is logged with the
+ * library's shadow counter and the real depth, for MutexTrace.tla. */
+static qmutex_t *MX; static vh_buf mb; static long m_failed, m_target; static int m_other;
+static void mev(const char *ev, int ok) {
+    vh_bprintf(&mb, "{\"ev\":\"%s\",\"t\":%d,\"ok\":%s,\"cnt\":%d,\"depth\":%ld}", ev, me + 1, vh_bool(ok), MX->count, vh_locks - vh_unlocks);
+    vh_bflush(&mb);
+}
+static void m_before(void) { }
+static void m_locked(void) { mev("try", 1); }
+static void m_unlocked(void) { mev("leave", 1); }
+static void m_unlockfail(void) { mev("force", 1); }
+static void m_lockfail(void) {
+    mev("try", 0);
+    if (++m_failed == m_target) { sem_post(&go[m_other]); sem_wait(&go[me]); }      /* now let the holder release */
+}
+static void *mutex_holder(void *arg) {
+    long nest = (long) arg;
+    me = 1;
+    sem_wait(&go[1]);
+    mev("enter", 1); L->lock(L);
+    if (nest) { mev("enter", 1); L->lock(L); }
+    sem_post(&go[0]);                 /* thread 1 may start its operation now */
+    sem_wait(&go[1]);                 /* ... until it has spun long enough */
+    if (nest) L->unlock(L);
+    L->unlock(L);
+    sem_post(&go[0]);
+    return NULL;
+}
+static int run_mutex(int rounds, const char *outf) {
+    vh_open(outf);
+    K = K_LIST;
+    for (int t = 0; t < 2; t++) sem_init(&go[t], 0, 0);
+    vh_hook_before_lock = m_before; vh_hook_locked = m_locked; vh_hook_unlocked = m_unlocked; vh_hook_lock_failed = m_lockfail; vh_hook_unlock_failed = m_unlockfail;
+    for (int r = 0; r < rounds; r++) {
+        vh_hook_locked = NULL; vh_hook_unlocked = NULL;
+        mk();
+        MX = (qmutex_t *) L->qmutex;
+        vh_bprintf(&mb, "{\"ev\":\"reset\",\"t\":0,\"ok\":true,\"cnt\":%d,\"depth\":%ld}", MX->count, vh_locks - vh_unlocks); vh_bflush(&mb);
+        vh_hook_locked = m_locked; vh_hook_unlocked = m_unlocked;
+        me = 0; m_other = 1;
+        int cycles = 1 + r % 3;
+        m_failed = 0; m_target = (long) cycles * (MAX_MUTEX_LOCK_WAIT + 1) + 7 * r;   /* release in the middle of a spin cycle too */
+        int x = 5;
+        /* plain uncontended and nested use first */
+        mev("enter", 1); L->lock(L); mev("enter", 1); L->addlast(L, &x, sizeof x); L->unlock(L);
+        pthread_t th; pthread_create(&th, NULL, mutex_holder, (void *) (long) (r & 1));
+        sem_post(&go[1]); sem_wait(&go[0]);               /* holder has the lock */
+        mev("enter", 1);
+        L->addlast(L, &x, sizeof x);                      /* spins, force-unlocks, finally acquires */
+        pthread_join(th, NULL);
+        vh_hook_locked = NULL; vh_hook_unlocked = NULL;
+        vh_bprintf(&mb, "{\"ev\":\"end\",\"t\":0,\"ok\":%s,\"cnt\":%d,\"depth\":%ld}", vh_bool(L->size(L) == 2), MX->count, vh_locks - vh_unlocks); vh_bflush(&mb);
+        rel();
+    }
+    vh_close();
+    return 0;
+}
+
 int main(int argc, char **argv) {
     if (argc < 4) return 2;
+    if (!strcmp(argv[1], "mutex")) { vh_install_handlers(); exit(run_mutex(atoi(argv[2]), argv[3])); }
     kindname = argv[2];
     K = !strcmp(kindname, "vector") ? K_VECTOR : !strcmp(kindname, "list") ? K_LIST : !strcmp(kindname, "hashtbl") ? K_HASHTBL
       : !strcmp(kindname, "treetbl") ? K_TREETBL : K_LISTTBL;
